@@ -287,7 +287,7 @@ PROPS["C09"] = dict(level="model_checking", explanation="single formatter iauth_
 IO_UNW = ["--unwind", "14", "--unwindset", "put_str.0:41,fputs.0:130,iauth_send.0:5,memset.0:600"]
 for _k in range(22):
     IJ("C09.send.fmt%02d" % _k, "C09", "h_send", SETM, harness="harness/h_iauth_io.c", stubs=IAUTH_STUBS + ["stubs/stdout_model.c"], functions=["iauth_send"],
-       cbmc=IO_UNW, unwind_rules=[("h_send", r"i < 128", 129), ("h_send", r"i < (40|IRC_NTOP_MAX)", 42), ("h_send", r"i < (11|12|6);", 13), ("h_send", r"f\[i\]", 14)], cls="bounded", bound="string arguments of <= 11 bytes, address text of <= 8 bytes; one job per format string used by the daemon", defines=["KIND=%d" % _k, "ADDR_MAX=8"], timeout=1800, cost=4, solver="kissat")
+       cbmc=IO_UNW, unwind_rules=[("h_send", r"i < 128", 129), ("h_send", r"i < (40|IRC_NTOP_MAX)", 42), ("h_send", r"i < (11|12|6);", 13), ("h_send", r"f\[i\]", 14)], cls="bounded", bound="string arguments of <= 11 bytes; the <id> <address> <port> prefix fully symbolic (address text <= 8 bytes) with format d, one concrete prefix with the other client-directed formats; one job per format string used by the daemon", defines=["KIND=%d" % _k, "ADDR_MAX=8"] + (["CONCRETE_PREFIX"] if _k < 12 else []), timeout=2400, cost=(40 if _k == 12 else 4), solver=("kissat" if _k == 12 else "minisat"))
 IJ("C04.routing_roundtrip", "C04", "h_routing_roundtrip", SETM, harness="harness/h_iauth_io.c", stubs=IAUTH_STUBS + ["stubs/stdout_model.c"],
    functions=["iauth_routing", "iauth_validate_request"], cbmc=IO_UNW, assumptions=SET_ASSUME + ["S2 strtol/strtoul are CBMC's library models"], timeout=1800, cost=10)
 IJ("C04.validate_any", "C04", "h_validate_any", SETM, harness="harness/h_iauth_io.c", stubs=IAUTH_STUBS + ["stubs/stdout_model.c"],
@@ -388,12 +388,21 @@ IJ("C17.xq_services_changed", "C17", "h_xq_services_changed", ["iauth_send", "ia
 # =========================================================================== log.c (C18, C09)
 PROPS["C18"] = dict(level="model_checking", explanation="severity-set parser against the mathematical set for every 1-2 item expression; message fan-out per destination; rescan not under contract")
 LOG_STUBS = ["stubs/tramp_set.c", "stubs/printf_model.c", "stubs/strto_model.c", "stubs/stdout_model.c"]
-for _e, _fn, _un in (("h_log_sevset", ["log_parse_type_sevset"], "strcpy.0:24,h_log_sevset.0:8,h_log_sevset.1:8,h_log_sevset.2:8,h_log_sevset.3:8,strcasecmp.0:9,strchr.0:24,strcmp.0:4,strlen.0:24,put.0:9,memset.0:300,strdup.0:24"),
-                     ("h_log_message", ["log_vmessage", "log_message"], "vsnprintf.0:3,vsnprintf.1:6,memset.0:64")):
-    for _p in (("C18",) if _e == "h_log_sevset" else ("C18", "C09")):
-        J(id="%s.%s" % (_p, _e[2:]), prop=_p, cls="bounded" if _e == "h_log_sevset" else "proof",
-          bound="every expression of 1-2 items over all 6 operators and 7 names, plus * and the dot-less form: 1808 concrete cases, exhaustive" if _e == "h_log_sevset" else "",
-          srcs=["src/common.c", "src/config.c"], stubs=LOG_STUBS, harness="harness/h_log.c", entry=_e, checks=["ptr", "shift"],
-          cbmc=["--unwind", "8", "--unwinding-assertions", "--object-bits", "10", "--no-malloc-may-fail", "--unwindset", _un],
-          functions=_fn, assumptions=["set.c through its contract (spec/set_model.h, C19)", "S1 stdio: only the target stream of a write is modelled"], timeout=2400, cost=5,
-          solver="kissat", mem=30)
+def _log_jobs(tier, seed):
+    out = []
+    for _e, _fn, _un in (("h_log_sevset", ["log_parse_type_sevset"], "strcpy.0:24,h_log_sevset.0:8,h_log_sevset.1:8,h_log_sevset.2:8,h_log_sevset.3:8,strcasecmp.0:9,strchr.0:24,strcmp.0:4,strlen.0:24,put.0:9,memset.0:300,strdup.0:24"),
+                         ("h_log_message", ["log_vmessage", "log_message"], "vsnprintf.0:3,vsnprintf.1:6,memset.0:64")):
+        for _p in (("C18",) if _e == "h_log_sevset" else ("C18", "C09")):
+            sl = (_e == "h_log_sevset" and tier == "quick")
+            out.append(dict(id="%s.%s%s" % (_p, _e[2:], ".slice" if sl else ""), prop=_p, cls="bounded" if _e == "h_log_sevset" else "proof",
+              bound=("one-item expressions exhaustively (6 operators x 7 names), two-item expressions for a slice of name pairs (260 concrete cases)" if sl else
+                     "every expression of 1-2 items over all 6 operators and 7 names, plus * and the dot-less form: 1808 concrete cases, exhaustive") if _e == "h_log_sevset" else "",
+              srcs=["src/common.c", "src/config.c"], stubs=LOG_STUBS, harness="harness/h_log.c", entry=_e, checks=["ptr", "shift"],
+              defines=(["SEVSET_SLICE"] if sl else []),
+              cbmc=["--unwind", "8", "--unwinding-assertions", "--object-bits", "14", "--no-malloc-may-fail", "--unwindset", _un],
+              functions=_fn, assumptions=["set.c through its contract (spec/set_model.h, C19)", "S1 stdio: only the target stream of a write is modelled"],
+              timeout=(2400 if tier == "quick" else 14000), cost=5, mem=24))
+    return out
+
+
+GENERATORS.append(_log_jobs)
